@@ -130,4 +130,3 @@ package authenticators
 //@   ensures ret1 == nil ==> tclaims.n == old(tclaims.n) + 1 && tclaims.arg0[old(tclaims.n)] == token && tclaims.arg1[old(tclaims.n)] == iface(key) && tclaims.ret0[old(tclaims.n)] == nil
 //@   ensures ret1 == nil ==> cval.n == old(cval.n) + 1 && cval.ret0[old(cval.n)] == nil && cval.arg1[old(cval.n)] == *assertions
 //@   ensures ret1 == nil ==> jm.n > old(jm.n) && ret0 == jm.ret0[jm.n - 1]
-
